@@ -261,14 +261,18 @@ func c09JudgeFlight(c *evlog.Case, rp *c09Rep, comp, inClass string, env c09Env,
 			// the environment classes under which the packer is known to size a later datagram
 			// too generously are part of the signature
 			kind = "|packet-buffer-overflow"
-			if env.MaxSize == protocol.MaxPacketBufferSize {
-				kind += "|maxsize-at-buffer-size"
-			}
-			for _, x := range env.PNLens {
-				if x != env.PNLens[0] {
-					kind += "|varying-pnlen"
-					break
+			if strings.Contains(comp, "flight") {
+				// flight budgets are computed once, with the header of the first packet
+				for _, x := range env.PNLens {
+					if x != env.PNLens[0] {
+						kind += "|varying-pnlen"
+						break
+					}
 				}
+			} else if env.MaxSize == protocol.MaxPacketBufferSize {
+				// per-datagram re-framing adds frame headers to a slice that was popped to
+				// fill the packet
+				kind += "|maxsize-at-buffer-size"
 			}
 		}
 		rp.viol("C09|"+comp+"|error-after-output"+kind+inClass, fmt.Sprintf("%d Initial datagram(s) carrying %d of %d ClientHello bytes were produced before the packer failed with: %v", len(res.Payloads), st.Covered, len(ch), res.Err), tr)
